@@ -13,6 +13,17 @@ from .program import dotted, norm
 from .algebra import SymEval, C, L, Rat
 
 
+import copy as _copy
+
+
+class _SubstName(ast.NodeTransformer):
+    def __init__(self, name, node):
+        self.name, self.node = name, node
+
+    def visit_Name(self, n):
+        return _copy.deepcopy(self.node) if n.id == self.name and isinstance(n.ctx, ast.Load) else n
+
+
 class _Return(Exception):
     def __init__(self, value):
         self.value = value
@@ -238,6 +249,27 @@ class PathInterp:
             if len(st.targets) == 1 and isinstance(st.targets[0], (ast.Tuple, ast.List)) and isinstance(st.value, (ast.Tuple, ast.List)) \
                     and len(st.targets[0].elts) == len(st.value.elts):
                 vals = [ev.ev(v) for v in st.value.elts]
+                for t, v in zip(st.targets[0].elts, vals):
+                    self._store(t, v, ev, st)
+                return
+            v0 = st.value
+            if len(st.targets) == 1 and isinstance(st.targets[0], (ast.Tuple, ast.List)) and isinstance(v0, (ast.ListComp, ast.GeneratorExp)) \
+                    and len(v0.generators) == 1 and not v0.generators[0].ifs and isinstance(v0.generators[0].iter, (ast.Tuple, ast.List)) \
+                    and len(v0.generators[0].iter.elts) == len(st.targets[0].elts) and isinstance(v0.generators[0].target, ast.Name):
+                # a, b, c = [f(k) for k in (ka, kb, kc)]: one evaluation of the element per literal key
+                g = v0.generators[0]
+                saved = ev.env.get(g.target.id)
+                vals = []
+                for e in g.iter.elts:
+                    if isinstance(e, ast.Constant):
+                        vals.append(ev.ev(_SubstName(g.target.id, e).visit(_copy.deepcopy(v0.elt))))
+                    else:
+                        ev.env[g.target.id] = ev.ev(e)
+                        vals.append(ev.ev(v0.elt))
+                if saved is None:
+                    ev.env.pop(g.target.id, None)
+                else:
+                    ev.env[g.target.id] = saved
                 for t, v in zip(st.targets[0].elts, vals):
                     self._store(t, v, ev, st)
                 return
